@@ -24,7 +24,10 @@ fn pair_strategy() -> impl Strategy<Value = PairCase> {
 	// parameters carry no source names here: a diff speaks about the target namespace only (the
 	// .tinydiff format has no source column for parameters), so it cannot transport them
 	let cfg = GenCfg { ns_min: 2, ns_max: 2, p_missing: 0, style: TargetStyle::Arbitrary, param_src_names: false, ..GenCfg::default() };
-	(mapset(cfg), draws(), draws(), any::<u8>(), order_seed()).prop_map(|(base, s1, s2, mode, order)| {
+	// a quarter of the bases leave a few entries without a target name (diff() may refuse such a pair; when it answers,
+	// the answer must still take A to B)
+	let bases = prop_oneof![3 => mapset(cfg.clone()), 1 => mapset(GenCfg { p_missing: 4, ..cfg })];
+	(bases, draws(), draws(), any::<u8>(), order_seed()).prop_map(|(base, s1, s2, mode, order)| {
 		// mode: overlapping (common ancestor), identical, or disjoint key sets
 		let mut a = edit(&base, 1, &s1);
 		let mut b = edit(&base, 1, &s2);
@@ -46,6 +49,31 @@ fn pair_strategy() -> impl Strategy<Value = PairCase> {
 					nb.classes.insert(nk, c);
 				}
 				b = nb;
+			}
+			2 | 3 => {
+				// one entry that both sides have keeps its name in A and has none in B (mode 3: the other way round)
+				let (from, to) = if mode % 8 == 2 { (&a, &mut b) } else { (&b, &mut a) };
+				let shared: Vec<String> = to.classes.keys().filter(|k| from.classes.contains_key(*k)).cloned().collect();
+				if !shared.is_empty() {
+					let ck = &shared[(order % shared.len() as u64) as usize];
+					let (fc, tc) = (&from.classes[ck], to.classes.get_mut(ck).unwrap());
+					let level = (order >> 8) % 4;
+					let fk = tc.fields.keys().find(|k| fc.fields.contains_key(*k)).cloned();
+					let mk = tc.methods.keys().find(|k| fc.methods.contains_key(*k)).cloned();
+					match (level, fk, mk) {
+						(1, Some(fk), _) => tc.fields.get_mut(&fk).unwrap().names[1] = None,
+						(2, _, Some(mk)) => tc.methods.get_mut(&mk).unwrap().names[1] = None,
+						(3, _, Some(mk)) => {
+							let fm = &fc.methods[&mk];
+							let tm = tc.methods.get_mut(&mk).unwrap();
+							match tm.params.keys().find(|k| fm.params.contains_key(*k)).cloned() {
+								Some(pk) => tm.params.get_mut(&pk).unwrap().names[1] = None,
+								None => tm.names[1] = None,
+							}
+						}
+						_ => tc.names[1] = None,
+					}
+				}
 			}
 			_ => {}
 		}
@@ -117,13 +145,14 @@ fn inverse_law(case: &PairCase, obs: &mut Obs) -> PropResult {
 		Ok(d) => d,
 		Err(e) => {
 			if refdiff.is_none() {
-				obs.label("diff_precondition_unmet");
+				obs.label("diff_precondition_unmet:refused");
 				return Ok(());
 			}
 			return Err(format!("diff(A,B) failed although every entry has a target name: {e:#}"));
 		}
 	};
 	let dm = diff_from_quill(&d).map_err(|e| format!("diff result inconsistent: {e:#}"))?;
+	obs.label_if(refdiff.is_none(), "diff_precondition_unmet:answered");
 	// apply(diff(A,B), A) == B
 	let applied = d.apply_to::<2, Ns, Ns>(qa.clone(), &case.a.ns[1]).map_err(|e| format!("apply(diff(A,B), A) was refused: {e:#}\ndiff = {dm:?}"))?;
 	let back = from_quill(&applied).map_err(|e| format!("apply result inconsistent: {e:#}"))?;
